@@ -202,8 +202,10 @@ func labelFromRequest(c *core.Ctx, fn *ssa.Function, v ssa.Value, want string, d
 
 // routerMsgFunc: the RouterHandler method that calls Subscribe, Publish and Unsubscribe.
 func routerMsgFunc(c *core.Ctx) *ssa.Function {
+	serve := c.P.Method(c.P.Root, "RouterHandler", "ServeNostr")
 	for _, fn := range c.P.ModFuncs {
-		if recvTypeName(fn) != "RouterHandler" {
+		// a method of the router, or of a per-connection value ServeNostr builds and calls
+		if recvTypeName(fn) != "RouterHandler" && (serve == nil || fn.Parent() != nil || len(callsTo(serve, fn)) == 0) {
 			continue
 		}
 		n := 0
@@ -250,24 +252,32 @@ func runSubSync(c *core.Ctx) {
 		return
 	}
 	c.CountFuncs(2)
-	// the session id parameter: the one ServeNostr passes its uuid to
-	sessIdx := -1
-	for _, call := range callsTo(serve, fn) {
-		for i, a := range call.Call.Args {
-			if strings.Contains(an.PathOf(a), "uuid.NewString") {
-				sessIdx = i
-			}
+	// everything is read in ServeNostr's terms (the message function may get the per-connection id
+	// as a parameter, or as a field of a per-connection value it is a method of): the id is the
+	// uuid ServeNostr draws, the message the one it received
+	sites := callsTo(serve, fn)
+	if len(sites) != 1 {
+		c.Unknown(nil, fname(c, serve), "session-id", P.Pos(serve.Pos()), "ServeNostr does not call the message function exactly once")
+		return
+	}
+	inS := func(v ssa.Value) string { return an.PathOfIn(v, &sites[0].Call) }
+	// (the uuid may be drawn in ServeNostr or in the constructor of the per-connection value)
+	sess := "call:github.com/google/uuid.NewString()"
+	handed := false
+	for _, a := range sites[0].Call.Args {
+		if strings.Contains(an.PathOf(a), sess) {
+			handed = true
 		}
 	}
-	if sessIdx < 0 {
+	if !handed {
 		c.Unknown(nil, fname(c, serve), "session-id", P.Pos(serve.Pos()), "the per-connection id handed to the message function was not recognised")
 		return
 	}
-	sess := "p:" + fn.Params[sessIdx].Name()
-	msgP := ""
+	msgP, msgS := "", ""
 	for _, p := range fn.Params {
 		if typeNameOf(p.Type()) == "ClientMsg" {
 			msgP = "p:" + p.Name()
+			msgS = inS(p)
 		}
 	}
 	find := func(suffix string) ssa.CallInstruction {
@@ -289,10 +299,10 @@ func runSubSync(c *core.Ctx) {
 			why = "Subscribe is started with go/defer: the EOSE can be sent before the subscription is registered, so an event published after the client saw EOSE may be missed"
 		} else {
 			eose := returnsCtor(fn, "NewServerEOSEMsg")
-			sub := an.PathOf(ci.Common().Args[1])
+			sub := inS(ci.Common().Args[1])
 			good = len(eose) == 1 && an.InstrDominates(ci, eose[0]) &&
-				strings.Contains(sub, "ReqID="+sess+",") && strings.Contains(sub, "SubscriptionID="+msgP+".SubscriptionID") &&
-				strings.Contains(sub, "NewReqFiltersEventLimitMatcher("+msgP+".ReqFilters)") && assertedType(fn, ci.Block(), msgP) == "ClientReqMsg"
+				strings.Contains(sub, "ReqID="+sess+",") && strings.Contains(sub, "SubscriptionID="+msgS+".SubscriptionID") &&
+				strings.Contains(sub, "NewReqFiltersEventLimitMatcher("+msgS+".ReqFilters)") && assertedType(fn, ci.Block(), msgP) == "ClientReqMsg"
 			why = fmt.Sprintf("Subscribe(%s) dominates the EOSE: %v", clip(sub, 80), good)
 		}
 		c.Check(good, nil, fname(c, fn), "clause[REQ]", P.Pos(fn.Pos()), "REQ: Subscribe(newSubscriber(session id, msg, queue)) runs synchronously before EOSE is returned", why)
@@ -307,7 +317,7 @@ func runSubSync(c *core.Ctx) {
 				why = "Publish is started with go/defer: OK can precede delivery, breaking per-publisher order"
 			} else {
 				oks := returnsCtor(fn, "NewServerOKMsg")
-				good = len(oks) == 1 && an.InstrDominates(ci, oks[0]) && an.PathOf(ci.Common().Args[1]) == msgP+".Event" && isConstBool(oks[0].Call.Args[1], true)
+				good = len(oks) == 1 && an.InstrDominates(ci, oks[0]) && inS(ci.Common().Args[1]) == msgS+".Event" && isConstBool(oks[0].Call.Args[1], true)
 				why = fmt.Sprintf("Publish(%s) before an accepting OK: %v", an.PathOf(ci.Common().Args[1]), good)
 			}
 		}
@@ -321,8 +331,8 @@ func runSubSync(c *core.Ctx) {
 		if ci != nil {
 			_, isCall := ci.(*ssa.Call)
 			a := ci.Common().Args
-			good = isCall && an.PathOf(a[1]) == sess && an.PathOf(a[2]) == msgP+".SubscriptionID" && assertedType(fn, ci.Block(), msgP) == "ClientCloseMsg"
-			why = fmt.Sprintf("Unsubscribe(%s, %s)", an.PathOf(a[1]), an.PathOf(a[2]))
+			good = isCall && inS(a[1]) == sess && inS(a[2]) == msgS+".SubscriptionID" && assertedType(fn, ci.Block(), msgP) == "ClientCloseMsg"
+			why = fmt.Sprintf("Unsubscribe(%s, %s)", inS(a[1]), inS(a[2]))
 		}
 		c.Check(good, nil, fname(c, fn), "clause[CLOSE]", P.Pos(fn.Pos()), "CLOSE: Unsubscribe(session id, msg.SubscriptionID) synchronously", "CLOSE does not remove exactly (session id, msg.SubscriptionID): "+why)
 	}
@@ -507,18 +517,34 @@ func runBuf(c *core.Ctx) {
 	}
 	c.CountFuncs(2)
 	var mc *ssa.MakeChan
-	an.Instrs(serve, func(in ssa.Instruction) {
-		if m, ok := in.(*ssa.MakeChan); ok {
-			if ch, ok := m.Type().Underlying().(*types.Chan); ok && typeNameOf(ch.Elem()) == "ServerMsg" {
-				mc = m
+	var mcSite *ssa.CallCommon // the constructor call through which the queue is made, if any
+	findQueue := func(f *ssa.Function, site *ssa.CallCommon) {
+		an.Instrs(f, func(in ssa.Instruction) {
+			if m, ok := in.(*ssa.MakeChan); ok {
+				if ch, ok := m.Type().Underlying().(*types.Chan); ok && typeNameOf(ch.Elem()) == "ServerMsg" && mc == nil {
+					mc, mcSite = m, site
+				}
+			}
+		})
+	}
+	findQueue(serve, nil)
+	if mc == nil {
+		// made by the constructor of a per-connection value, once per ServeNostr call
+		for _, ci := range calls(serve) {
+			call, isCall := ci.(*ssa.Call)
+			if g := an.StaticCallee(ci.Common()); isCall && g != nil && an.PrivateHelper(g) && an.LoopHeaderOf(call.Block()) == nil && len(g.Params) == len(call.Call.Args) {
+				findQueue(g, &call.Call)
 			}
 		}
-	})
+	}
 	if mc == nil {
 		c.Bad(nil, fname(c, serve), "queue", P.Pos(serve.Pos()), "no per-connection queue of ServerMsg is created")
 		return
 	}
 	size := an.PathOf(mc.Size)
+	if mcSite != nil {
+		size = an.PathOfIn(mc.Size, mcSite)
+	}
 	// the configured capacity: the field NewRouterHandler fills from its parameter
 	cfgField := ""
 	an.Instrs(ctor, func(in ssa.Instruction) {
@@ -533,5 +559,39 @@ func runBuf(c *core.Ctx) {
 	c.Check(cfgField != "" && size == "recv."+cfgField, nil, fname(c, serve), "queue/capacity", P.Pos(mc.Pos()), "queue capacity = "+size+" = the constructor argument", "queue capacity is "+size+", not the configured buffer length (recv."+cfgField+")")
 	// exactly one receiver, inside a goroutine of this function
 	recvs := an.RecvSites(serve, func(v ssa.Value) bool { return an.MakeChanOf(v) == mc }, 0)
+	// … or in a method of a per-connection value that carries the queue in a field
+	// (`ss.subCh = make(…); go ss.forward(ctx, …)`): the receive is read in ServeNostr's terms
+	mcPath := an.PathOf(mc)
+	for _, f := range an.WithAnon(serve) {
+		for _, ci := range calls(f) {
+			g := an.StaticCallee(ci.Common())
+			if g == nil || !an.PrivateHelper(g) || g.Signature.Recv() == nil || len(g.Params) != len(ci.Common().Args) {
+				continue
+			}
+			passed := false
+			for _, a := range ci.Common().Args {
+				if an.MakeChanOf(a) == mc {
+					passed = true // counted by RecvSites through the parameter
+				}
+			}
+			if passed {
+				continue
+			}
+			for _, h := range an.WithAnon(g) {
+				for _, op := range an.ChanOps(h) {
+					if op.Kind == an.OpSelect {
+						for _, st := range op.Select.States {
+							if st.Dir == types.RecvOnly && an.PathOfIn(st.Chan, ci.Common()) == mcPath {
+								recvs++
+							}
+						}
+					}
+					if op.Kind == an.OpRecv && an.PathOfIn(op.Chan, ci.Common()) == mcPath {
+						recvs++
+					}
+				}
+			}
+		}
+	}
 	c.Check(recvs == 1, nil, fname(c, serve), "queue/single-receiver", P.Pos(mc.Pos()), "the queue is drained by exactly one receive site (FIFO per subscription)", fmt.Sprintf("%d receive sites on the per-connection queue: deliveries can be reordered or lost", recvs))
 }
